@@ -22,6 +22,7 @@ def run(ctx):
     ctx.rule("W1", "every successor-walking visibility predicate tests the successor's increment value (an increment does not hide a counter)")
     ctx.rule("W4", "OpSet::add_succ_with_undo: the flag that stops further exposure is set at the first surviving value of the register whether or not a deletion was seen above it (only the highest surviving value can become the winner); the exposing store is behind that flag == false")
     ctx.rule("W6", "OpSet::add_succ_with_undo: the exposing store goes through OpSet::expose, which sets the top flag and the text-index width together")
+    ctx.rule("W7", "OpSet::add_succ_with_undo: the exposing store is edge-dominated by `index.visible[pos] == true` (a value already overwritten outside the transaction's scope is not a surviving value)")
     ctx.rule("W5", "InsertQuery::resolve: the scan position used for an append is advanced on every iteration of the scan, also when an increment op is skipped")
     ctx.rule("W2", "Automerge::get_for: the value returned for a key / index is the last of the found ops (next_back / last), never first / next / nth")
     f = C01.check_order(ctx)
@@ -98,6 +99,16 @@ def check_expose_once(ctx, f):
         ok = (bi, t) not in raw
         ctx.ob("W6", k, ok, t["sp"], "through OpSet::expose (top and text width together)" if ok else
                "a surviving value is made the element's top op without the text-index width that conflict() cleared: in a text, length(), get() and cursors no longer agree with text()")
+    # W7: only an op that is still visible can become the winner (under isolation a change outside the scope may already have overwritten it)
+    def vis_read(t_):
+        if (norm_fn(t_.get("fn")) or "").split("::")[-1] not in ("eq", "get", "unwrap_or", "is_some_and", "contains"):
+            return False
+        return any(".visible" in "".join(b.origin(l_, pr_)[1]) for a_ in t_.get("args", []) for l_, pr_ in b.provenance(a_, through_calls=True).places)
+    vis_true = cfg.cond_edges(b, atom_call=lambda t_: (norm_fn(t_.get("fn")) or "").split("::")[-1] == "eq" and vis_read(t_))
+    for k, (bi, t) in util.ordinal_keys(sites, lambda it: "add_succ_with_undo|exposed op is visible"):
+        ok = any(b.edges_dominate([e], bi) for e in vis_true)
+        ctx.ob("W7", k, ok, t["sp"], "behind a test of the visibility index" if ok else
+               "a surviving counter is made the element's top op without asking whether it is still visible: under isolation at older heads a later change may already have overwritten it, top without visible trips the assertion in reset_top (panic in release builds too)")
     bool_locals = [l for l in range(b.argc + 1, len(b.rec.get("locals", []))) if b.local_ty(l) == "bool" and b.local_name(l)]
     for k, (bi, t) in util.ordinal_keys(sites, lambda it: "add_succ_with_undo|expose"):
         ok_any = False
